@@ -66,9 +66,65 @@ fn finish<T: ToVal>(r: Result<darling::Result<T>, String>) -> Obs {
 
 pub type Runner = fn(&str) -> Obs;
 
+/// Marker (a trailing comment, so columns do not move): every `name = value` inside an attribute
+/// is delivered the way a `macro_rules!` `$e:expr` forwards it, in an invisible group.
+pub const GROUPED: &str = "/*G*/";
+
+fn group_values(ts: proc_macro2::TokenStream, in_attr: bool) -> proc_macro2::TokenStream {
+    use proc_macro2::{Delimiter, Group, Spacing, TokenTree};
+    let toks: Vec<TokenTree> = ts.into_iter().collect();
+    let mut out: Vec<TokenTree> = vec![];
+    let mut i = 0;
+    while i < toks.len() {
+        let is_eq = |t: Option<&TokenTree>| matches!(t, Some(TokenTree::Punct(p)) if p.as_char() == '=' && p.spacing() == Spacing::Alone);
+        let prev_is_name = matches!(out.last(), Some(TokenTree::Ident(_)));
+        if in_attr && is_eq(toks.get(i)) && prev_is_name && !is_eq(toks.get(i + 1)) {
+            out.push(toks[i].clone());
+            let mut j = i + 1;
+            let mut inner: Vec<TokenTree> = vec![];
+            while j < toks.len() && !matches!(&toks[j], TokenTree::Punct(p) if p.as_char() == ',') {
+                inner.push(toks[j].clone());
+                j += 1;
+            }
+            if !inner.is_empty() {
+                let span = inner[0].span().join(inner[inner.len() - 1].span()).unwrap_or_else(|| inner[0].span());
+                let mut g = Group::new(Delimiter::None, inner.into_iter().collect());
+                g.set_span(span);
+                out.push(TokenTree::Group(g));
+            }
+            i = j;
+            continue;
+        }
+        match &toks[i] {
+            TokenTree::Group(g) if g.delimiter() != Delimiter::None => {
+                let after_pound = matches!(out.last(), Some(TokenTree::Punct(p)) if p.as_char() == '#');
+                let enter = in_attr || (after_pound && g.delimiter() == Delimiter::Bracket);
+                let mut ng = Group::new(g.delimiter(), if enter { group_values(g.stream(), true) } else { group_values(g.stream(), false) });
+                ng.set_span(g.span());
+                out.push(TokenTree::Group(ng));
+            }
+            t => out.push(t.clone()),
+        }
+        i += 1;
+    }
+    out.into_iter().collect()
+}
+
+pub fn parse_input(src: &str) -> syn::Result<syn::DeriveInput> {
+    match src.strip_suffix(GROUPED) {
+        None => syn::parse_str(src),
+        Some(plain) => {
+            // the plain text must be an item in the first place
+            let _: syn::DeriveInput = syn::parse_str(plain)?;
+            let ts: proc_macro2::TokenStream = plain.parse()?;
+            syn::parse2(group_values(ts, false))
+        }
+    }
+}
+
 /// `src` = `#[<item>] struct S;` — converts the attribute's meta with `T::from_meta`.
 pub fn run_from_meta<T: FromMeta + ToVal>(src: &str) -> Obs {
-    let di: syn::DeriveInput = match syn::parse_str(src) {
+    let di: syn::DeriveInput = match parse_input(src) {
         Ok(d) => d,
         Err(e) => return Obs::NoParse(e.to_string()),
     };
@@ -85,7 +141,7 @@ pub fn run_from_none<T: FromMeta + ToVal>(_src: &str) -> Obs {
 }
 
 pub fn run_from_derive_input<T: darling::FromDeriveInput + ToVal>(src: &str) -> Obs {
-    let di: syn::DeriveInput = match syn::parse_str(src) {
+    let di: syn::DeriveInput = match parse_input(src) {
         Ok(d) => d,
         Err(e) => return Obs::NoParse(e.to_string()),
     };
@@ -93,7 +149,7 @@ pub fn run_from_derive_input<T: darling::FromDeriveInput + ToVal>(src: &str) -> 
 }
 
 pub fn run_from_attributes<T: darling::FromAttributes + ToVal>(src: &str) -> Obs {
-    let di: syn::DeriveInput = match syn::parse_str(src) {
+    let di: syn::DeriveInput = match parse_input(src) {
         Ok(d) => d,
         Err(e) => return Obs::NoParse(e.to_string()),
     };
@@ -101,7 +157,7 @@ pub fn run_from_attributes<T: darling::FromAttributes + ToVal>(src: &str) -> Obs
 }
 
 pub fn run_from_field<T: darling::FromField + ToVal>(src: &str) -> Obs {
-    let di: syn::DeriveInput = match syn::parse_str(src) {
+    let di: syn::DeriveInput = match parse_input(src) {
         Ok(d) => d,
         Err(e) => return Obs::NoParse(e.to_string()),
     };
@@ -116,7 +172,7 @@ pub fn run_from_field<T: darling::FromField + ToVal>(src: &str) -> Obs {
 }
 
 pub fn run_from_variant<T: darling::FromVariant + ToVal>(src: &str) -> Obs {
-    let di: syn::DeriveInput = match syn::parse_str(src) {
+    let di: syn::DeriveInput = match parse_input(src) {
         Ok(d) => d,
         Err(e) => return Obs::NoParse(e.to_string()),
     };
@@ -131,7 +187,7 @@ pub fn run_from_variant<T: darling::FromVariant + ToVal>(src: &str) -> Obs {
 }
 
 pub fn run_from_type_param<T: darling::FromTypeParam + ToVal>(src: &str) -> Obs {
-    let di: syn::DeriveInput = match syn::parse_str(src) {
+    let di: syn::DeriveInput = match parse_input(src) {
         Ok(d) => d,
         Err(e) => return Obs::NoParse(e.to_string()),
     };
